@@ -412,6 +412,14 @@ def run(tier, seed):
             bad += b
             if cnt["programs"]:
                 per[name] = cnt
+    # ---- where the scheduling points are: step-exact (trace mode) on the general profiles.  The model has a scheduling
+    # point exactly where the source calls thread::switch(), including the conditional ones (blocking acquire of a fair
+    # semaphore, a send that will block, the last arrival at a barrier): a point that disappears from the code is a
+    # decision the implementation no longer makes.
+    n_sp = 100 if tier == "quick" else 2500
+    for prof in ("sem", "sem_shape", "chan", "chan_shape", "chan_dl", "barrier", "condvar", "locks", "once", "stdmix", "async_sem", "tmpsc", "tlocks"):
+        k = n_sp // 3 if prof.endswith("_shape") else n_sp
+        results["points_" + prof] = run_stream("c02pt_" + prof, gen.batch(rng.next(), prof, k, f"c02pt_{prof}_"), "trace")
     bad.sort(key=lambda b: b[3])
     # one defect shows up under many shapes in unminimised programs: group by root (the op kinds of the differing
     # operations), minimise the smallest program of every root, take the signature from the minimised program
